@@ -480,10 +480,16 @@ fn inv(x: u128) -> u128 {
     };
     // d = m - 1
     let (mut d0, mut d1, mut d2) = ((M as u64) - 1, (M >> 64) as u64, 0);
+    #[cfg(feature = "verif-hooks")]
+    let mut verif_steps = 0u32;
 
     // compute the inverse
     while v != 1 {
+        #[cfg(feature = "verif-hooks")]
+        crate::field::verif_step(&mut verif_steps);
         while u2 > 0 || ((u0 as u128) + ((u1 as u128) << 64)) > v {
+            #[cfg(feature = "verif-hooks")]
+            crate::field::verif_step(&mut verif_steps);
             // u > v
             // u = u - v
             let (t0, t1, t2) = sub_192x192(u0, u1, u2, v as u64, (v >> 64) as u64, 0);
@@ -498,6 +504,8 @@ fn inv(x: u128) -> u128 {
             d2 = t2;
 
             while u0 & 1 == 0 {
+                #[cfg(feature = "verif-hooks")]
+                crate::field::verif_step(&mut verif_steps);
                 if d0 & 1 == 1 {
                     // d = d + m
                     let (t0, t1, t2) = add_192x192(d0, d1, d2, M as u64, (M >> 64) as u64, 0);
@@ -528,6 +536,8 @@ fn inv(x: u128) -> u128 {
         a2 = t2;
 
         while v & 1 == 0 {
+            #[cfg(feature = "verif-hooks")]
+            crate::field::verif_step(&mut verif_steps);
             if a0 & 1 == 1 {
                 // a = a + m
                 let (t0, t1, t2) = add_192x192(a0, a1, a2, M as u64, (M >> 64) as u64, 0);
